@@ -102,7 +102,7 @@ PROPS = {
         assumptions=["kernel values / mixture responsibilities are non-negative", "AnnotatorLogisticRegression and the mixture model are numerical optimisers: bounded only"],
         explanation="normalisation and decision contracts of the classifier base classes; all classifiers swept over training-set patterns, class orders and cost matrices"),
     "C12": dict(
-        units=[("contracts.classifiers", has("C12")), ("contracts.frames", has("F4"))],
+        units=[("contracts.classifiers", has("C12")), ("contracts.frames", has("F4", "F2m")), ("contracts.aggregation", has("compute_vote"))],
         bounded=[("bounded/models.py", "C12")],
         trusted=[L2_BASE],
         assumptions=["the wrapped estimator's fit is a function of its arguments (and permutation invariant)"],
@@ -132,7 +132,7 @@ PROPS = {
         assumptions=["numpy dtype promotion / casting is enumerated, not proved"],
         explanation="predicate contracts; exhaustive finite enumeration dtype x sentinel x shape x pattern x container"),
     "C17": dict(
-        units=[("contracts.aggregation", None)],
+        units=[("contracts.aggregation", None), ("contracts.selection", has("rand_argmax.axis1"))],
         bounded=[("bounded/labels.py", "C17")],
         trusted=[L2_BASE],
         assumptions=["np.bincount and sklearn confusion_matrix count what they say"],
